@@ -57,6 +57,17 @@ CLAIMED = {
          'The theta / score non-interference inside crossval is a supporting perturbation test through a recording fitter, '
          'not a theorem about evaluate.py; np.random.shuffle outcomes are recorded by an in-process wrapper.',
          'DESIGN.md section 7, C05'),
+ 'C11': ('Coq proof of a provenance invariant over all finite sequences of dataset operations + partition / multiset / stable-sort '
+         'theorems + in-Coq correspondence of real Dataset/TemporalDataset operation sequences, conversions, binning, averaging',
+         'Theorems (axiom-free): subset/split/sort_by/merge/odd-even/copy on any axis preserve "every measurement is the source value '
+         'of its (observation, channel, time) ids and every retained tuple occurs in the source", for every reachable state; subsets '
+         'are filters in original order; split parts are the label classes in first-appearance order and partition the rows; merging '
+         'the parts of a split is a permutation of the rows; sort_by is exactly the stable insertion sort (permutation, sorted, equal '
+         'keys keep their order). Correspondence inside Coq: operation sequences on tagged flat and temporal datasets incl. size-1 '
+         'axes, time_as_observations / time_as_channels, bin_time, average_dataset_by.',
+         'time_as_observations / time_as_channels / bin_time / averaging are modelled and compared but have no separate theorem; '
+         'DataFrame round trip, get_measurements_tensor and nested_odd_even_split are checked by the Python oracle only.',
+         'DESIGN.md section 7, C11'),
 }
 NA_REASON = 'check not built yet in this round (work in progress; see DESIGN.md section 7)'
 
